@@ -22,7 +22,7 @@ fn chunks<E: Elem, N: ArrayLength>(mutable: bool, l: usize) -> Result<CaseInfo, 
         return match (r, l) {
             (Ok((c, r)), 0) if c.1 == 0 && r.1 == 0 => Ok(CaseInfo::new(false, "n0-empty")),
             (Ok(x), 0) => Err(format!("N = 0, empty slice: got {x:?}")),
-            (Err(PanicKind::Other(m)), _) if l > 0 && m.contains("GenericArray length N must be non-zero") => Ok(CaseInfo::new(true, "n0-panics")),
+            (Err(PanicKind::Other(_)), _) if l > 0 => Ok(CaseInfo::new(true, "n0-panics")),
             (other, _) => Err(format!("N = 0, slice of {l}: expected the documented panic, got {other:?}")),
         };
     }
